@@ -326,6 +326,19 @@ impl InferShapes for ReductionOp<'_> {
         axes.sort();
         axes.dedup();
 
+        if axes.is_empty() && ndim > 0 {
+            // An empty `axes` list either reduces all dims or none, depending
+            // on the operator's `noop_with_empty_axes` attribute, which is not
+            // known here. Only the rank of a `keep_dims` result is certain.
+            let out = if self.keep_dims {
+                let out_shape = (0..ndim).map(|_| sym_gen.gen_positive()).collect();
+                SymTensor::from_shape(out_shape)
+            } else {
+                SymTensor::unknown("empty axes")
+            };
+            return Ok([out].into());
+        }
+
         let out_ndim = if self.keep_dims {
             ndim
         } else {
